@@ -241,7 +241,7 @@ PROPS = dict(
         scope='CommitLog::{new,next_offset,append,apply_retention,readv} and Segment::{new,with_offset,next_offset,push,len,size} verified by Verus on the text extracted from /repo at run time; Segment::readv (iterator chain) assumed in Verus and bounded-checked by Kani',
         residual='DataLog::native_readv (wrapper the router reads through; uses Instant for the expiry filter) is outside the Verus unit and covered by a BOUNDED native check that it returns exactly what CommitLog::readv returns; Storage::size implementations are outside the unit',
         assumptions=[
-            'machine arithmetic is NOT treated as mathematical: stated preconditions tail < u64::MAX, absolute_offset + 2*len + 2 <= u64::MAX, total_size + size(entry) <= u64::MAX on append; len <= u32::MAX on readv',
+            'machine arithmetic is NOT treated as mathematical: stated preconditions tail < u64::MAX, absolute_offset + 2*len + 2 <= u64::MAX, total_size + size(entry) <= u64::MAX on append; the requested count of readv is unrestricted (any u64)',
             'Clone::clone of a log entry returns an equal value (generic T: Clone has no specification)',
         ],
     ),
